@@ -6,6 +6,22 @@ claimed = {
    text="Deductive proof (SSA->SMT VCs, all inputs) that the real getObjState implements the create/drop/re-create decision stated in the property, for all orders of the three timestamps and both presence bits over full uint64.",
    note="Trusted: go/ssa semantics, solvers, logging calls modify nothing. Not decided: truth of the recorded times (C15 / downstream probes).",
    design="3 (C08)"),
+ "C12": dict(
+   text="Deductive proof of the key algebra of the etcd metadata backend on the real key functions: each key function equals its spec (path.Join modelled), keys are injective in task and collection, the per-task scan prefix covers only that task's keys (ids sharing a prefix are not touched), task-info and position keyspaces are disjoint, and roots that are not '/'-boundary prefixes of each other are isolated.",
+   note="Proved for identifiers without '/', '.', '..' and clean root paths (stated as requires/assumes). Trusted: path.Join model, decimal rendering of int64 is injective and '/'-free, etcd range semantics. Not yet under contract in this round: MySQL SQL text, record read-modify-write, transactional delete (see DESIGN.md section 10).",
+   design="3 (C12)"),
+ "C14": dict(
+   text="Deductive proof on the real Packer.Receive / ClearMsgs / checkers / MemoryProtector: delivered++buffered grows by exactly the received pack (nothing lost, invented, duplicated or reordered), a flush is all-or-nothing and hands the callback exactly the buffer in order, the callback error is returned, count and memory triggers flush, and the budget bookkeeping (lock invariant current == sum of shares; batcher invariant share == buffered bytes) returns to zero when all batchers are empty.",
+   note="Ghost sequence `delivered` records callback invocations (funcparam contract, assumed for callbacks: they do not touch the packer). Age trigger: time is arbitrary. Lock invariant via monitor rule for MemoryProtector.lock. The call sites in server.startReplicateDMLMsg (final flush) are not yet under contract.",
+   design="3 (C14)"),
+ "C15": dict(
+   text="Deductive proof that the real name-key functions (create/drop keys for database, collection, partition) equal their spec including the default-database normalisation, that create and drop keys never coincide, and that keys are injective for names without '_'; the general injectivity lemma fails and is recorded as known finding F12.",
+   note="Not yet under contract in this round: GetAllDroppedObj scan and horizon arithmetic, NewChannelWriter seeding (DESIGN.md section 10).",
+   design="3 (C15)"),
+ "C16": dict(
+   text="Deductive proof on the real ChannelMapping type: average == ceil(larger/smaller) (non-linear, full int range under the count precondition), NewChannelMapping establishes the shape invariant, CheckKeyNotExist returns exactly 'quota not exhausted' (map-iteration loops with counting invariants), AddKeyValue preserves shape and balance (no channel serves more than averageCnt; injective when equal), assigns the requested pair and never changes an existing assignment; CheckKeyExist / GetMapKey / GetMapValue / UsingSourceKey equal their specs.",
+   note="Trusted: four cardinality axioms (cntEmpty, cntAddKey, cntStoreOutside, cntStoreInside), map iteration visits < 2^56 keys. Call sites in replicateChannelManager (channelLock discipline) not yet under contract; liveness of the wait/forward rendez-vous is out of reach.",
+   design="3 (C16)"),
 }
 na_reason = "contracts for this property are not yet written in this round (see DESIGN.md section 10 for status)"
 all_ids = [json.loads(l)["id"] for l in open("properties.jsonl")]
